@@ -57,6 +57,11 @@ def pyexpr(e, leaf):
     if k == 'ConditionalOperator':
         c, a, b = children(e)
         return '((%s) if (%s) else (%s))' % (pyexpr(a, leaf), pyexpr(c, leaf), pyexpr(b, leaf))
+    if k == 'ArraySubscriptExpr':
+        b = strip(children(e)[0])
+        nm = (b.get('referencedDecl') or {}).get('name')
+        if nm in (_CTX.get('tabs') or {}):
+            return '__T[%r][(%s)]' % (nm, pyexpr(children(e)[1], leaf))
     if k == 'CallExpr' and _CTX.get('prog') is not None:
         # a small pure helper of the repository: tabulated by the loop-free interpreter at evaluation time
         prog = _CTX['prog']
@@ -82,7 +87,7 @@ def _call(nm, args):
 
 
 def _fn(text, names):
-    return eval('lambda %s: %s' % (', '.join(names), text), {'__builtins__': {}, '__call': _call})
+    return eval('lambda %s: %s' % (', '.join(names), text), {'__builtins__': {}, '__call': _call, '__T': _CTX.get('tabs') or {}})
 
 
 def _tables(f):
@@ -139,7 +144,7 @@ def rule_b64_encode_law(prog, rep, rid='TB10'):
     rep.rule(rid, 'Base64 encoder: the four alphabet indexes are the four 6-bit fields of the staged 24-bit group, in order '
                   '(index expressions evaluated over all values of the bytes they read)')
     f = prog.need_func('qbase64_encode')
-    _CTX.update(prog=prog, unit=f.unit)
+    _CTX.update(prog=prog, unit=f.unit, tabs={})
     tabs = _tables(f)
     alpha = [n for n, v in tabs.items() if len(v) == 64]
     if len(alpha) != 1:
@@ -197,7 +202,7 @@ def rule_b64_decode_law(prog, rep, rid='TB11'):
     rep.rule(rid, 'Base64 decoder: in state k the emitted byte is ((previous << 2k) | (current >> (6-2k))) & 0xff for all sextet '
                   'pairs; the state steps k -> (k+1) mod 4; the current sextet becomes the previous one for every valid character')
     f = prog.need_func('qbase64_decode')
-    _CTX.update(prog=prog, unit=f.unit)
+    _CTX.update(prog=prog, unit=f.unit, tabs={})
     tabs = _tables(f)
     par = _parents(f.body)
     defs = _local_defs(f)
@@ -338,7 +343,7 @@ def rule_hex_laws(prog, rep):
     rep.rule('TB12', 'hex encoder: the two digit indexes of a byte are (b >> 4, b & 15), high digit first (all 256 bytes)')
     rep.rule('TB13', 'hex decoder: the emitted byte is 16 * value(digit at +0) + value(digit at +1) for all 256 digit-value pairs')
     f = prog.need_func('qhex_encode')
-    _CTX.update(prog=prog, unit=f.unit)
+    _CTX.update(prog=prog, unit=f.unit, tabs={})
     tabs = _tables(f)
     t16 = [n for n, v in tabs.items() if len(v) == 16]
     if len(t16) == 1:
@@ -364,7 +369,7 @@ def rule_hex_laws(prog, rep):
                     rep.violation('TB12', f, sub.get('_line'), 'digit%d' % j, 'hex digit %d of a byte is computed as %s: wrong for byte 0x%02x'
                                   % (j, canon(children(sub)[1])[:40], bad[0]))
     f = prog.need_func('qhex_decode')
-    _CTX.update(prog=prog, unit=f.unit)
+    _CTX.update(prog=prog, unit=f.unit, tabs={})
     tabs = _tables(f)
     t256 = [n for n, v in tabs.items() if len(v) == 256]
     if len(t256) == 1:
@@ -412,8 +417,8 @@ def rule_pct_laws(prog, rep, rid='TB14'):
     rep.rule(rid, '%hh: the URL encoder\'s escape digits are hex digits of value (c >> 4, c & 15) for every escaped byte; the '
                   'two-digit helper returns 16*hi + lo for all 484 digit pairs in either case')
     f = prog.need_func('qurl_encode')
-    _CTX.update(prog=prog, unit=f.unit)
     tabs = _tables(f)
+    _CTX.update(prog=prog, unit=f.unit, tabs={k: v for k, v in tabs.items() if len(v) == 16})
     defs = _local_defs(f)
     # the three stores of the escape arm: '%', digit, digit
     esc = None
